@@ -127,6 +127,23 @@ def run(tier):
                 rest.append(f)
         fails = rest
     for f in fails[:1]:
+        # shrink the history: drop every earlier step without which the last step still differs from the fresh compilation
+        try:
+            f0 = next(fr["steps"][0] for key, fr in zip(keys, fresh) if key == (f["entry"], f["behaviour"]))
+
+            def differs(st, f0=f0):
+                if bool(st.get("ok")) != bool(f0.get("ok")):
+                    return True
+                if st.get("ok"):
+                    return canon(st["text"]) != canon(f0["text"]) or st.get("meta") != f0.get("meta")
+                return st.get("exc") != f0.get("exc")
+            small = k2.shrink_history(f["history"], differs)
+            if len(small) < len(f["history"]):
+                f["history_as_generated"] = f["history"]
+                f["history"] = small
+                f["step"] = len(small) - 1
+        except Exception:
+            pass
         res.violation({"what": "the result of compiling a behaviour after a history differs from compiling it first in a fresh process "
                                "(beyond renaming of h_tmpN and comments)", "input": f, "broken": [vars(x) for x in broken]})
     if broken and not fails:
